@@ -15,7 +15,15 @@ with the real `BIOGEME.estimate()` / `quick_estimate()` in scratch directories.
     result consistency, the KKT relation with the algorithm's own tolerance whenever convergence by
     the gradient criterion is reported, the first-order inequality of concavity between every two
     runs of a problem (which bounds their disagreement);
-  * a property oracle written from the statement (numpy only).
+  * a property oracle written from the statement (numpy only);
+  * sequences of operations on ONE object (`run_session`): estimate (with or without bootstrapping), then
+    evaluations at other points with every flag combination (scaled or not), `check_derivatives`,
+    `likelihood_finite_difference_hessian`, `calculate_init_likelihood`, `change_init_values`, a further
+    `estimate` / `quick_estimate`, the reporting functions of the results - every results object is kept
+    alive and read again after every later operation; the clauses are decided against likelihood values
+    and derivatives recomputed by *independent* objects built from the same abstract case; the whole
+    recorded session is replayed through `Estimate.run` (likelihood = table of independent evaluations,
+    optimiser = the recorded calls) and its reports and final state compared with the real ones.
 
 The optimisers are external: their convergence is not modelled.  A run that does not report
 convergence but respects the contract is not a violation.
@@ -40,7 +48,12 @@ MANIFEST = dict(
     "'automatic' and unknown names (algorithm_resolution, bound_aware_table, options_plumbing_*); over R: first-order inequality of concave functions on the box, "
     'a KKT point is a global maximum, two KKT points have the same value (concave_first_order_box, kkt_global_max, algorithms_agree, gap_bound; Mathlib convexity, '
     'restriction to a segment). Tie: real estimate()/quick_estimate() runs on generated concave problems x all algorithm names x bound configurations; '
-    'spies record what reaches the wrappers and the external routines; the driver evaluates the contract and the conclusions on every run.',
+    'spies record what reaches the wrappers and the external routines; the driver evaluates the contract and the conclusions on every run. '
+    'Sequences of operations on one object (estimate with/without bootstrap, evaluations elsewhere, new starting values, further estimations): '
+    'every results object returned reports L, g, H, BHHH at its own point whatever happened before (C07.session_reports_consistent, result_consistent_bootstrap), '
+    'evaluations leave no trace (session_eval_transparent), write-back after bootstrap/evaluations (session_writeback), a second estimate restarts from the '
+    'same values (reestimate_restarts); real sessions are replayed through Estimate.run and every results object is re-read after every later operation and '
+    'compared with independent recomputations.',
     design='DESIGN.md §5 C07',
     technique='Lean 4 theorems about the estimation wrapper with the optimiser as a parameter under a recorded contract + Mathlib convexity for KKT => global maximum; '
     'differential correspondence and relation monitoring on real estimations',
@@ -54,6 +67,7 @@ TRUSTED = [
     'biogeme_optimization and scipy.optimize: only the contract OptContract (dimension, feasibility when bound-aware, no increase of the minimised function) is assumed and it is monitored on every run',
     'the C++ engine evaluates L, gradient, Hessian, BHHH (their correctness is C02/C04); here only that the reported ones are those at the reported point',
     'concavity of the generated likelihoods (linear regression, logit) is a mathematical fact about the generators, not checked by Lean',
+    'sessions: the engine is deterministic on one thread (two objects built from the same case give the same value at the same point up to 1e-11 relative)',
 ]
 ASSUMPTIONS = [
     'OptContract for the external optimiser (monitored on every real run)',
@@ -61,10 +75,11 @@ ASSUMPTIONS = [
     'starting point inside the bounds',
 ]
 RULE = (
-    'one case = one real estimation (problem x bounds x algorithm x start, including bounds exactly 0 and runs that stop before convergence); '
-    'non-trivial = at least 2 free parameters or an active/one-sided bound or a fixed parameter'
+    'one case = one real estimation (problem x bounds x algorithm x start, including bounds exactly 0 and runs that stop before convergence), '
+    'non-trivial = at least 2 free parameters or an active/one-sided bound or a fixed parameter; or one session = one sequence of public operations '
+    'on one BIOGEME object starting with an estimation (non-trivial = at least one later operation)'
 )
-TOL = 'sign flip, write-back, option values: exact; recomputed L/g/H/BHHH: rel 1e-9; bounds: 1e-10; KKT: the algorithm\'s tolerance (x1.001); first-order inequality: 1e-9*(1+|L|) + 1e-9*|g.dx|'
+TOL = 'sign flip, write-back, option values: exact; recomputed L/g/H/BHHH: rel 1e-9; bounds: 1e-10; KKT: the algorithm\'s tolerance (x1.001); first-order inequality: 1e-9*(1+|L|) + 1e-9*|g.dx|; sessions: L rel 1e-11, g/H/BHHH 1e-9*max(1,|.|max) against independent objects, estimates / starting values / bootstrap rows exact'
 
 NAME_POOL = ['b10', 'b2', 'alpha', 'zeta', 'B_TIME', 'asc', 'mu', 'Z']
 TOML = """[Specification]
@@ -799,6 +814,497 @@ def check_pairs(ctx, res, group):
         ctx.batch.add_many(reqs, cb_pairs)
 
 
+# --------------------------------------------------------------------------- sessions (sequences of operations on one object)
+#
+# A results object is a report about one estimation.  The statement quantifies over estimations, not
+# over "the first call on a fresh object": the clauses must hold of every results object whatever is
+# done on the BIOGEME object before (an earlier estimation) or after it was returned (evaluations at
+# other points, other flags, bootstrapping, a further estimation, new starting values).  The
+# reference values come from *independent* objects built from the same abstract case, never from the
+# object under test.
+
+EVAL_FLAGS = [(True, True), (True, False), (False, True), (False, False)]
+
+
+def gen_point(rng, problem, bounds):
+    return start_point(rng, problem, bounds, 'rand')
+
+
+def gen_ops(rng, problem, bounds, n_ops):
+    ops = []
+    for _ in range(n_ops):
+        kind = rng.choice(['eval', 'eval', 'eval', 'check_derivatives', 'fd_hessian', 'like', 'init', 'report', 'estimate', 'estimate_boot', 'quick', 'change'])
+        if kind == 'eval':
+            hess, bh = rng.choice(EVAL_FLAGS)
+            at = 'estimates' if rng.random() < 0.25 else gen_point(rng, problem, bounds)
+            ops.append({'op': 'eval', 'at': at, 'scaled': rng.random() < 0.3, 'hessian': hess, 'bhhh': bh})
+        elif kind in ('check_derivatives', 'fd_hessian', 'like'):
+            ops.append({'op': kind, 'at': 'estimates' if rng.random() < 0.2 else gen_point(rng, problem, bounds)})
+        elif kind == 'estimate_boot':
+            ops.append({'op': 'estimate', 'boot': rng.choice([2, 3])})
+        elif kind == 'estimate':
+            ops.append({'op': 'estimate', 'boot': 0})
+        elif kind == 'change':
+            pt = gen_point(rng, problem, bounds)
+            keys = rng.sample(problem['names'], rng.randint(1, len(problem['names'])))
+            ops.append({'op': 'change', 'vals': {k: pt[k] for k in keys}})
+            # new starting values are set in order to be used: mostly followed by something that starts from them
+            nxt = rng.choice(['estimate', 'estimate', 'estimate_boot', 'quick', 'init', None])
+            if nxt == 'estimate':
+                ops.append({'op': 'estimate', 'boot': 0})
+            elif nxt == 'estimate_boot':
+                ops.append({'op': 'estimate', 'boot': rng.choice([2, 3])})
+            elif nxt is not None:
+                ops.append({'op': nxt})
+        else:
+            ops.append({'op': kind})
+    return ops
+
+
+class OptRecorder:
+    """records, for every call of an entry of `optimization.algorithms`, where it started and what it returned"""
+
+    def __init__(self):
+        import biogeme.optimization as opt
+
+        self.opt = opt
+        self.calls = []
+        self.saved = dict(opt.algorithms)
+
+    def __enter__(self):
+        for name, fn in self.saved.items():
+            def wrapped(fct, init_betas, bounds, variable_names, parameters=None, _fn=fn, _name=name):
+                start = [float(v) for v in init_betas]
+                out = _fn(fct, init_betas, bounds, variable_names, parameters)
+                self.calls.append({'entry': _name, 'x0': start, 'xstar': [float(v) for v in out[0]], 'converged': bool(out[2])})
+                return out
+            self.opt.algorithms[name] = wrapped
+        return self
+
+    def __exit__(self, *exc):
+        self.opt.algorithms.clear()
+        self.opt.algorithms.update(self.saved)
+        return False
+
+
+def read_report(r):
+    """everything the clauses speak about, read from a results object now"""
+    d = r.data
+    return {
+        'names': list(d.betaNames), 'x': [float(v) for v in d.betaValues], 'logLike': float(d.logLike),
+        'initLogLike': None if d.initLogLike is None else float(d.initLogLike),
+        'g': None if d.g is None else [float(v) for v in np.asarray(d.g, dtype=float)],
+        'H': None if d.H is None else np.asarray(d.H, dtype=float).tolist(),
+        'bhhh': None if d.bhhh is None else np.asarray(d.bhhh, dtype=float).tolist(),
+        'converged': bool(d.convergence),
+        'bootstrap': None if d.bootstrap is None else np.asarray(d.bootstrap, dtype=float).tolist(),
+    }
+
+
+def key_of(x):
+    return tuple(f2b(float(v)) for v in x)
+
+
+class References:
+    """likelihood and derivatives of the abstract case at a point, each from a fresh BIOGEME object"""
+
+    def __init__(self, case, tag):
+        self.case, self.tag, self.table, self.n = case, tag, {}, 0
+
+    def at(self, x):
+        k = key_of(x)
+        if k not in self.table:
+            self.n += 1
+            c = self.case
+            R, _, _ = build(c['problem'], c['x0'], c['bounds'], f'{self.tag}_ref{self.n}')
+            ev = R.calculate_likelihood_and_derivatives(np.array([float(v) for v in x]), scaled=False, hessian=True, bhhh=True)
+            self.table[k] = {'x': [float(v) for v in x], 'L': float(ev.function), 'g': [float(v) for v in ev.gradient],
+                             'H': np.asarray(ev.hessian, dtype=float).tolist(), 'bhhh': np.asarray(ev.bhhh, dtype=float).tolist()}
+        return self.table[k]
+
+
+def run_session(case, tag):
+    out = {}
+    try:
+        return _run_session(out, case, tag)
+    except Exception as e:  # noqa: BLE001
+        out['exc'] = f'{type(e).__name__}: {e}'
+        out['exc_kind'] = core.exc_kind(e)
+        return out
+
+
+def _params_now(betas, fixed_beta):
+    ps = [{'name': n, 'value': float(b.initValue), 'fixed': False} for n, b in betas.items()]
+    if fixed_beta is not None:
+        ps.append({'name': fixed_beta.name, 'value': float(fixed_beta.initValue), 'fixed': True})
+    return ps
+
+
+def _run_session(out, case, tag):
+    problem, bounds = case['problem'], case['bounds']
+    np.random.seed(case['np_seed'])
+    B, betas, fixed_beta = build(problem, case['x0'], bounds, tag)
+    apply_cfg(B, case['algo'], case['cfg'])
+    order = list(B.id_manager.free_betas.names)
+    refs = References(case, tag)
+    out.update({'order': order, 'x0': [float(v) for v in B.id_manager.free_betas_values], 'before': _params_now(betas, fixed_beta),
+                'steps': [], 'reports': [], 'opt_calls': [], 'refs': refs})
+    live = []          # the results objects, kept alive and read again after every later operation
+    start = list(out['x0'])   # harness-side account of the values an estimation starts from (only used to describe a step)
+    boot_tag = [0]
+
+    def vec(at):
+        if at == 'estimates':
+            full = [r for r in live]
+            return [float(v) for v in full[-1].data.betaValues]
+        return [float(at[n]) for n in order]
+
+    def reread(step_index):
+        for k, r in enumerate(live):
+            out['reports'][k]['reads'].append({'after_step': step_index, **read_report(r)})
+        out['steps'][step_index]['params'] = _params_now(betas, fixed_beta)
+
+    def do_estimate(step_index, boot, quick):
+        B.bootstrap_samples = boot if boot else 2
+        with OptRecorder() as rec:
+            r = B.quick_estimate() if quick else B.estimate(run_bootstrap=bool(boot))
+        tags = []
+        for i, c in enumerate(rec.calls):
+            if i == 0:
+                c['tag'] = 0
+            else:
+                boot_tag[0] += 1
+                c['tag'] = boot_tag[0]
+                tags.append(boot_tag[0])
+        out['opt_calls'].extend(rec.calls)
+        live.append(r)
+        out['reports'].append({'made_by': 'quick_estimate' if quick else 'estimate', 'step': step_index, 'boot': boot, 'boot_tags': tags,
+                               'started_from': list(rec.calls[0]['x0']) if rec.calls else None, 'reads': []})
+
+    ops = [{'op': 'estimate', 'boot': case['boot']}] + list(case['ops'])
+    for i, op in enumerate(ops):
+        st = {'op': op}
+        out['steps'].append(st)
+        kind = op['op']
+        if kind == 'estimate':
+            do_estimate(i, op['boot'], quick=False)
+        elif kind == 'quick':
+            do_estimate(i, 0, quick=True)
+        elif kind == 'eval':
+            x = vec(op['at'])
+            ev = B.calculate_likelihood_and_derivatives(np.array(x), scaled=op['scaled'], hessian=op['hessian'], bhhh=op['bhhh'])
+            st['x'] = x
+            st['got'] = {'L': float(ev.function), 'g': [float(v) for v in ev.gradient],
+                         'H': np.asarray(ev.hessian, dtype=float).tolist() if op['hessian'] else None,
+                         'bhhh': np.asarray(ev.bhhh, dtype=float).tolist() if op['bhhh'] else None}
+        elif kind == 'like':
+            x = vec(op['at'])
+            st['x'] = x
+            st['got'] = {'L': float(B.calculate_likelihood(np.array(x), scaled=False))}
+        elif kind == 'check_derivatives':
+            x = vec(op['at'])
+            st['x'] = x
+            f, g, h, _, _ = B.check_derivatives(np.array(x))
+            st['got'] = {'L': float(f), 'g': [float(v) for v in g], 'H': np.asarray(h, dtype=float).tolist()}
+        elif kind == 'fd_hessian':
+            x = vec(op['at'])
+            st['x'] = x
+            B.likelihood_finite_difference_hessian(np.array(x))
+        elif kind == 'init':
+            st['got'] = {'L': float(B.calculate_init_likelihood())}
+            st['x'] = [float(v) for v in B.id_manager.free_betas_values]
+        elif kind == 'change':
+            B.change_init_values({k: float(v) for k, v in op['vals'].items()})
+        elif kind == 'report':
+            r = live[-1]
+            try:
+                r.get_estimated_parameters()
+                r.get_general_statistics()
+                r.short_summary()
+                r.get_beta_values()
+            except Exception as e:  # noqa: BLE001  (the reporting functions are C08's subject)
+                st['report_exc'] = f'{type(e).__name__}: {e}'
+        else:
+            raise ValueError(f'unknown operation {kind}')
+        reread(i)
+    # the object itself, at the end
+    out['state'] = {'params': _params_now(betas, fixed_beta), 'idValues': [float(v) for v in B.id_manager.free_betas_values],
+                    'initLogLike': None if B.initLogLike is None else float(B.initLogLike),
+                    'bootstrap': None if B.bootstrap_results is None else np.asarray(B.bootstrap_results, dtype=float).tolist()}
+    # the likelihood recomputed at the last estimates by the object that estimated, after everything
+    xs = [float(v) for v in live[-1].data.betaValues]
+    re = B.calculate_likelihood_and_derivatives(np.array(xs), scaled=False, hessian=True, bhhh=True)
+    out['re_same_object'] = {'x': xs, 'L': float(re.function), 'g': [float(v) for v in re.gradient], 'H': np.asarray(re.hessian, dtype=float).tolist(),
+                             'bhhh': np.asarray(re.bhhh, dtype=float).tolist(), 'L_only': float(B.calculate_likelihood(np.array(xs), scaled=False))}
+    return out
+
+
+def describe_step(out, i):
+    op = out['steps'][i]['op']
+    return f'step {i} ({op["op"]})'
+
+
+def oracle_session(case, out):
+    """the clauses of the statement, for every results object of the session, at every time it is read"""
+    if 'exc' in out:
+        return [(f'a sequence of public operations raised {out["exc"]}', out['exc'], 'results', 'BIOGEME (sequence of operations)')]
+    bad = []
+    order = out['order']
+    refs = out['refs']
+    lbub = [case['bounds'][n] for n in order]
+    aware = case['algo'] in BOUND_AWARE
+    for k, rep in enumerate(out['reports']):
+        W = 'BIOGEME.' + rep['made_by']
+        full = rep['made_by'] == 'estimate'
+        who = f'results object {k} ({rep["made_by"]}' + (f', run_bootstrap with {rep["boot"]} samples' if rep['boot'] else '') + f', returned at step {rep["step"]})'
+        if rep['started_from'] is None:
+            bad.append((f'{who}: no optimisation algorithm was called', None, 'one call of the algorithm', 'BIOGEME.optimize'))
+            continue
+        failed = set()   # a clause that fails for this object is reported at the first time it fails
+
+        def flag(clause, what, obs, exp, where):
+            if clause not in failed:
+                failed.add(clause)
+                bad.append((what, obs, exp, where))
+
+        for rd in rep['reads']:
+            when = 'when returned' if rd['after_step'] == rep['step'] else f'read again after {describe_step(out, rd["after_step"])}'
+            if rd['names'] != order:
+                flag('names', f'{who}, {when}: names of the results are not the free parameters in id order', rd['names'], order, 'RawResults')
+                continue
+            ref = refs.at(rd['x'])
+            if aware:
+                for x, (lb, ub), n in zip(rd['x'], lbub, order):
+                    if (lb is not None and x < lb - 1e-10) or (ub is not None and x > ub + 1e-10):
+                        flag('bounds', f'{who}, {when}: estimate of {n} violates its bounds with a bound-aware algorithm', x, [lb, ub], 'BIOGEME.optimize')
+            if not core.close(rd['logLike'], ref['L'], 1e-11):
+                flag('logLike', f'{who}, {when}: reported log likelihood differs from the likelihood recomputed at the estimates by an independent object',
+                     rd['logLike'], ref['L'], W)
+            L0 = refs.at(rep['started_from'])['L']
+            if not rd['logLike'] >= L0 - 1e-9 * max(1.0, abs(L0)):
+                flag('descent', f'{who}, {when}: final log likelihood lower than the likelihood at the values the estimation started from', rd['logLike'], L0, W)
+            if full:
+                if rd['initLogLike'] is None or not core.close(rd['initLogLike'], L0, 1e-11):
+                    flag('init', f'{who}, {when}: initial log likelihood is not the likelihood at the values the estimation started from', rd['initLogLike'], L0, W)
+                for key, name in (('g', 'gradient'), ('H', 'Hessian'), ('bhhh', 'BHHH')):
+                    if rd[key] is None or not close_vec(rd[key], ref[key]):
+                        flag(key, f'{who}, {when}: reported {name} is not the {name} of the likelihood at the reported estimates', rd[key], ref[key], W)
+            if len(bad) > 4:
+                return bad
+    # (e) after an estimation, until the user sets other starting values: formulas hold the estimates; fixed parameters never move
+    before = {p['name']: p for p in out['before']}
+    latest = None
+    user_values = {}
+    for i, st in enumerate(out['steps']):
+        kind = st['op']['op']
+        if kind == 'estimate':
+            latest = [r for r in out['reports'] if r['step'] == i][0]
+            user_values = {}
+        elif kind == 'change':
+            user_values.update({k: float(v) for k, v in st['op']['vals'].items()})
+        for p in st['params']:
+            if p['fixed']:
+                if f2b(p['value']) != f2b(before[p['name']]['value']):
+                    bad.append((f'fixed parameter {p["name"]} changed after {describe_step(out, i)}', p['value'], before[p['name']]['value'], 'BIOGEME.estimate (write-back)'))
+                continue
+            if p['name'] in user_values:
+                want, why = user_values[p['name']], 'the value set by change_init_values'
+            elif latest is not None:
+                rd = [r for r in latest['reads'] if r['after_step'] == i][0]
+                want, why = dict(zip(rd['names'], rd['x'])).get(p['name']), 'its estimate'
+            else:
+                continue
+            if want is None or f2b(p['value']) != f2b(want):
+                bad.append((f'starting value of {p["name"]} after {describe_step(out, i)} is not {why}', p['value'], want, 'BIOGEME.estimate (write-back)'))
+    # evaluations at the estimates through the public entry points, by the object that estimated
+    for i, st in enumerate(out['steps']):
+        op = st['op']
+        if op['op'] in ('eval', 'like', 'check_derivatives') and op.get('at') == 'estimates' and not op.get('scaled') and 'got' in st:
+            ref = refs.at(st['x'])
+            for key, name in (('L', 'log likelihood'), ('g', 'gradient'), ('H', 'Hessian'), ('bhhh', 'BHHH')):
+                got = st['got'].get(key)
+                if got is None:
+                    continue
+                ok = core.close(got, ref['L'], 1e-11) if key == 'L' else close_vec(got, ref[key])
+                if not ok:
+                    bad.append((f'{name} recomputed at the estimates at {describe_step(out, i)} differs from the one of an independent object', got, ref[key], 'BIOGEME.calculate_likelihood_and_derivatives'))
+    re = out['re_same_object']
+    ref = refs.at(re['x'])
+    if not (core.close(re['L'], ref['L'], 1e-11) and core.close(re['L_only'], ref['L'], 1e-11) and close_vec(re['g'], ref['g'])
+            and close_vec(re['H'], ref['H']) and close_vec(re['bhhh'], ref['bhhh'])):
+        bad.append(('likelihood and derivatives recomputed at the last estimates by the estimating object, after the whole sequence, differ from those of an independent object',
+                    {k: re[k] for k in ('L', 'L_only', 'g')}, {k: ref[k] for k in ('L', 'g')}, 'BIOGEME.calculate_likelihood_and_derivatives'))
+    return bad
+
+
+def session_request(case, out):
+    """the recorded session for `Estimate.run`: the likelihood as a table of independent evaluations, the
+    optimiser as the replay of the recorded calls; None when the recorded calls are not a function of
+    (objective, starting point)"""
+    refs = out['refs']
+    seen = {}
+    for c in out['opt_calls']:
+        k = (c['tag'], key_of(c['x0']))
+        v = (key_of(c['xstar']), c['converged'])
+        if seen.setdefault(k, v) != v:
+            return None
+    order = out['order']
+    points = [out['x0']]
+    ops = []
+    for i, st in enumerate(out['steps']):
+        op = st['op']
+        kind = op['op']
+        if kind in ('estimate', 'quick'):
+            rep = [r for r in out['reports'] if r['step'] == i][0]
+            points.append(rep['started_from'])
+            points.append(rep['reads'][0]['x'])
+            if kind == 'quick':
+                ops.append({'op': 'quick'})
+            else:
+                ops.append({'op': 'estimate', 'boot': rep['boot_tags'] if rep['boot'] else None})
+        elif kind in ('eval', 'like', 'check_derivatives', 'fd_hessian'):
+            ops.append({'op': 'eval', 'x': [f2b(v) for v in st['x']]})
+        elif kind == 'init':
+            points.append(st['x'])
+            ops.append({'op': 'init'})
+        elif kind == 'change':
+            ops.append({'op': 'change', 'vals': [[k, f2b(float(v))] for k, v in op['vals'].items()]})
+        elif kind == 'report':
+            continue
+    evals = []
+    done = set()
+    for x in points:
+        if key_of(x) in done:
+            continue
+        done.add(key_of(x))
+        r = refs.at(x)
+        evals.append({'x': [f2b(v) for v in x], 'f': f2b(r['L']), 'g': [f2b(v) for v in r['g']], 'h': [[f2b(v) for v in row] for row in r['H']],
+                      'bhhh': [[f2b(v) for v in row] for row in r['bhhh']]})
+    return {
+        'op': 'session', 'names': order, 'params': [{'name': p['name'], 'value': f2b(p['value']), 'fixed': p['fixed']} for p in out['before']],
+        'idValues': [f2b(v) for v in out['x0']], 'bounds': [[None if b is None else f2b(float(b)) for b in case['bounds'][n]] for n in order],
+        'initLogLike': None, 'evals': evals,
+        'opt': [{'tag': c['tag'], 'x0': [f2b(v) for v in c['x0']], 'xstar': [f2b(v) for v in c['xstar']], 'converged': c['converged']} for c in out['opt_calls']],
+        'ops': ops,
+    }
+
+
+def bits_mat(m):
+    return None if m is None else [[f2b(float(v)) for v in row] for row in m]
+
+
+def compare_session(res, case, out, ans):
+    W = 'BIOGEME (sequence of operations)'
+    if 'error' in ans:
+        res.diverge('driver error (session)', case, ans['error'], None, where=W)
+        return
+    reps = ans['reports']
+    if len(reps) != len(out['reports']):
+        res.diverge('number of results objects returned during the session', case, len(reps), len(out['reports']), where=W)
+        return
+    for k, (m, rep) in enumerate(zip(reps, out['reports'])):
+        full = rep['made_by'] == 'estimate'
+        if m['full'] != full:
+            res.diverge(f'results object {k}: with derivatives or not', case, m['full'], full, where=W)
+            continue
+        # the model's report is a value; the real one is read when returned and after every later operation
+        for rd in rep['reads']:
+            when = f'read after step {rd["after_step"]}'
+            if m['x'] != [f2b(v) for v in rd['x']]:
+                res.diverge(f'results object {k}, {when}: estimates vs what the optimiser returned (Estimate.run)', case, [b2f(v) for v in m['x']], rd['x'], where=W)
+            if not core.close(b2f(m['logLike']), rd['logLike'], 1e-11):
+                res.diverge(f'results object {k}, {when}: logLike (Estimate.run)', case, b2f(m['logLike']), rd['logLike'], where=W)
+            mi = None if m['initLogLike'] is None else b2f(m['initLogLike'])
+            if (mi is None) != (rd['initLogLike'] is None) or (mi is not None and not core.close(mi, rd['initLogLike'], 1e-11)):
+                res.diverge(f'results object {k}, {when}: initLogLike (Estimate.run: likelihood at id_manager.free_betas_values for estimate, the stored one for quick_estimate)',
+                            case, mi, rd['initLogLike'], where=W)
+            for key, mk in (('g', 'g'), ('H', 'h'), ('bhhh', 'bhhh')):
+                mv = m[mk]
+                if (mv is None) != (rd[key] is None):
+                    res.diverge(f'results object {k}, {when}: {key} present', case, mv is not None, rd[key] is not None, where=W)
+                elif mv is not None:
+                    mf = [b2f(v) for v in mv] if key == 'g' else [[b2f(v) for v in row] for row in mv]
+                    if not close_vec(mf, rd[key]):
+                        res.diverge(f'results object {k}, {when}: {key} (Estimate.run: the one evaluated at x*)', case, mf, rd[key], where=W)
+            if m['bootstrap'] != bits_mat(rd['bootstrap']):
+                res.diverge(f'results object {k}, {when}: bootstrap estimates vs the recorded re-estimations', case, m['bootstrap'], bits_mat(rd['bootstrap']), where=W)
+    st, real = ans['state'], out['state']
+    mp = [(p['name'], p['value'], p['fixed']) for p in st['params']]
+    rp = [(p['name'], f2b(p['value']), p['fixed']) for p in real['params']]
+    if mp != rp:
+        res.diverge('values held by the formulas at the end of the session vs Estimate.run', case, mp, rp, where='BIOGEME.estimate (write-back)')
+    if st['idValues'] != [f2b(v) for v in real['idValues']]:
+        res.diverge('id_manager.free_betas_values at the end of the session vs Estimate.run', case, [b2f(v) for v in st['idValues']], real['idValues'], where=W)
+    mi = None if st['initLogLike'] is None else b2f(st['initLogLike'])
+    if (mi is None) != (real['initLogLike'] is None) or (mi is not None and not core.close(mi, real['initLogLike'], 1e-11)):
+        res.diverge('initLogLike of the object at the end of the session vs Estimate.run', case, mi, real['initLogLike'], where=W)
+    if st['bootstrap'] != bits_mat(real['bootstrap']):
+        res.diverge('bootstrap_results of the object at the end of the session vs Estimate.run', case, st['bootstrap'], bits_mat(real['bootstrap']), where=W)
+
+
+def session_nontrivial(case):
+    return len(case['ops']) >= 1
+
+
+def check_session(ctx, res, case, tagc):
+    tagc[0] += 1
+    try:
+        out = run_session(case, f'c07_s{tagc[0]}')
+        res.count({'session': True, 'problem': case['problem']['id'], 'family': case['problem']['family'], 'K': case['problem']['K'], 'algo': case['algo'],
+                   'bounds': case['bcfg'], 'x0': case['x0'], 'boot': case['boot'], 'ops': case['ops'], 'rows': len(case['problem']['rows'])},
+                  nontrivial=session_nontrivial(case))
+        res.tally('session')
+        res.tally(f'session_algo={case["algo"]}')
+        if case['boot']:
+            res.tally('session_first_estimate_with_bootstrap')
+        for op in case['ops']:
+            res.tally(f'session_op={op["op"]}' + ('+bootstrap' if op.get('boot') else ''))
+        for what, obs, exp, where in oracle_session(case, out)[:3]:
+            res.violate(what, slim(case), obs, exp, where=where)
+        if 'exc' in out:
+            return
+        req = session_request(case, out)
+        if req is None:
+            res.tally('session_optimiser_not_a_function_of_its_start (model comparison skipped)')
+            return
+        out.pop('refs', None)
+
+        def cb(ans, case=case, out=out):
+            try:
+                compare_session(res, slim(case), out, ans)
+            except Exception as e:  # noqa: BLE001
+                res.diverge(f'compare_session: the real output could not be interpreted ({type(e).__name__}: {e})', slim(case), 'comparable output', str(e), where='harness')
+
+        ctx.batch.add(req, cb)
+    except Exception as e:  # noqa: BLE001
+        res.count({'harness_error': str(e)}, nontrivial=False)
+        res.violate(f'the session could not be evaluated: {type(e).__name__}: {e}', slim(case), str(e), 'a sequence of operations whose outputs can be read', where='harness')
+
+
+def gen_session(rng, problem, configs, algo, scenario=None):
+    bname = rng.choice(list(configs.keys()))
+    bounds = configs[bname]
+    ops = gen_ops(rng, problem, bounds, rng.randint(1, 4))
+    if scenario == 'restart':
+        # the everyday sequence: estimate, set other starting values (all of them), estimate again, look at both results
+        pt = gen_point(rng, problem, bounds)
+        ops = [{'op': 'change', 'vals': dict(pt)}, {'op': 'estimate', 'boot': rng.choice([0, 0, 2])}] + ops[:2]
+    elif scenario == 'inspect':
+        # estimate, evaluate everything somewhere else (both matrices), then read the results
+        ops = [{'op': 'eval', 'at': gen_point(rng, problem, bounds), 'scaled': rng.random() < 0.5, 'hessian': True, 'bhhh': True}] + ops[:2]
+    return {'kind': 'session', 'problem': problem, 'x0': start_point(rng, problem, bounds, rng.choice(['zero', 'rand'])), 'bounds': bounds, 'bcfg': bname,
+            'algo': algo, 'cfg': gen_cfg(rng), 'boot': rng.choice([0, 0, 2, 3]), 'ops': ops, 'np_seed': rng.randint(0, 2 ** 31 - 1)}
+
+
+def run_sessions(ctx, res, rng, problem, configs, tagc, algos, n):
+    for i in range(n):
+        case = gen_session(rng, problem, configs, algos[tagc[1] % len(algos)], scenario={0: 'restart', 1: 'inspect'}.get(i))
+        tagc[1] += 1
+        check_session(ctx, res, case, tagc)
+        if len(res.violations) > 6:
+            return
+
+
 CORPUS = []
 
 
@@ -811,7 +1317,7 @@ def run_problem(ctx, res, rng, problem, tagc, algos, bcfgs, n_quick):
                 'algo': 'simple_bounds', 'cfg': dict(CFG_DEFAULT), 'quick': True}
         res.count({'reference': problem['id']}, nontrivial=False)
         res.violate(f'estimation raised {type(e).__name__}: {e}', slim(case), f'{type(e).__name__}: {e}', 'results', where='BIOGEME.quick_estimate')
-        return
+        return None
     configs = bound_configs(rng, problem, ref)
     cfg = gen_cfg(rng)
     for bname in bcfgs:
@@ -823,7 +1329,7 @@ def run_problem(ctx, res, rng, problem, tagc, algos, bcfgs, n_quick):
             case = {'kind': 'run', 'problem': problem, 'x0': x0, 'bounds': bounds, 'bcfg': bname, 'algo': algo, 'cfg': cfg, 'quick': False}
             check_one(ctx, res, case, tagc[0], group)
             if len(res.violations) > 6:
-                return
+                return configs
         for algo in rng.sample(algos, min(n_quick, len(algos))):
             tagc[0] += 1
             case = {'kind': 'run', 'problem': problem, 'x0': x0, 'bounds': bounds, 'bcfg': bname, 'algo': algo, 'cfg': cfg, 'quick': True}
@@ -852,6 +1358,7 @@ def run_problem(ctx, res, rng, problem, tagc, algos, bcfgs, n_quick):
         if 'exc' not in o and not o['converged']:
             res.tally('short_run_not_converged')
     check_pairs(ctx, res, group)
+    return configs
 
 
 def check(ctx) -> Result:
@@ -862,7 +1369,7 @@ def check(ctx) -> Result:
     names = ['automatic'] + list(opt.algorithms.keys())
     if sorted(names) != sorted(ALGOS):
         res.diverge('names of optimization.algorithms', {'kind': 'table'}, sorted(ALGOS), sorted(names), where='optimization.algorithms')
-    tagc = [0]
+    tagc = [0, 0]
     with core.scratch(TOML):
         n_prob = ctx.n(8, 150)
         for pid in range(n_prob):
@@ -871,7 +1378,12 @@ def check(ctx) -> Result:
                 bcfgs = ['none', 'active', 'zero'] if pid % 2 == 0 else ['inactive', 'onesided', 'zero']
             else:
                 bcfgs = ['none', 'inactive', 'active', 'onesided', 'zero']
-            run_problem(ctx, res, rng, problem, tagc, names, bcfgs, n_quick=2 if ctx.quick else 3)
+            configs = run_problem(ctx, res, rng, problem, tagc, names, bcfgs, n_quick=2 if ctx.quick else 3)
+            if len(res.violations) > 6:
+                break
+            # sequences of operations on one object (every algorithm name in turn)
+            if configs is not None:
+                run_sessions(ctx, res, rng, problem, configs, tagc, names, n=6)
             if len(res.violations) > 6:
                 break
         # an unknown algorithm name is refused by the library (decision table: plumb = none)
@@ -928,6 +1440,14 @@ def search(ctx, res, broken):
                     what, obs, exp, where, ca, cb = pb[0]
                     res.violate(what, {'kind': 'pair', 'a': slim(ca), 'b': slim(cb)}, obs, exp, where=where)
                     return
+            for k, algo in enumerate(ALGOS):
+                tag += 1
+                case = gen_session(rng, problem, configs, algo, scenario={0: 'restart', 1: 'inspect'}.get(k % 4))
+                bad = oracle_session(case, run_session(case, f'c07ss_{tag}'))
+                if bad:
+                    what, obs, exp, where = bad[0]
+                    res.violate(what, slim(case), obs, exp, where=where)
+                    return
 
 
 def _case_from_json(c):
@@ -946,6 +1466,13 @@ def replay(ctx, obj):
             bad = oracle(c, o)
             out.update({'property_fails': bool(bad), 'failures': [[b[0], str(b[1])[:300], str(b[2])[:300]] for b in bad[:5]],
                         'observed': {k: o.get(k) for k in ('xstar', 'logLike', 'initLogLike', 'converged', 'cause', 'exc')}})
+        elif case.get('kind') == 'session':
+            c = _case_from_json(case)
+            o = run_session(c, 'c07_replay_s')
+            bad = oracle_session(c, o)
+            out.update({'property_fails': bool(bad), 'failures': [[b[0], str(b[1])[:300], str(b[2])[:300]] for b in bad[:5]],
+                        'observed': {'exc': o.get('exc'), 'reports': [{'made_by': r['made_by'], 'step': r['step'], 'first_read': r['reads'][0] if r['reads'] else None,
+                                                                    'last_read': r['reads'][-1] if r['reads'] else None} for r in o.get('reports', [])]}})
         elif case.get('kind') == 'pair':
             runs = []
             for key in ('a', 'b'):
